@@ -15,6 +15,7 @@ LEVEL = "exploration"
 TECHNIQUE = ('deterministic simulation, cooperative scheduling of generator pipelines: instrumented input iterator and sink (event-order invariants, closed-loop peer), stall_after faults on the channel, producer/consumer closed loop; deadlock = violation')
 LEVEL_NOTE = ('seeded search over stall points and schedules; GraphStream judged on the unambiguous clauses only')
 OPTIMIZED_EVERY = 25      # every 25th run is executed in a child interpreter started with python -O
+PBPY_EVERY = 50           # every 50th run (offset 6) is executed with protobuf's pure-Python backend
 COMPILED_EVERY = 25       # every 25th run (offset 12) is executed in a child that imports a mypyc build of the tree
 RUNS = {"quick": 60000, "thorough": 1200000}
 RULE = ("three scenario kinds per seed: (write) flat delimited serialization of an instrumented statement iterator, "
